@@ -1,16 +1,380 @@
 /-
 C11 — RINEX observation files (2.x, 3.x) are parsed into exactly the records they contain.
-(property theorems; work in progress)
+
+Property theorems about `Model/Rinex3Obs.lean`, `Model/Rinex2Obs.lean` (models of the repaired
+parsers), the generated column tables `Generated/Rinex{3,2}ObsCols.lean` and the RINEX 3.04 / 2.11
+layouts of `Spec/Rinex.lean`.  Numbers are exact rationals of the printed decimals; double
+rounding is measured by the correspondence (harness/c11.py), not proved.
 -/
 import Midgard.Model.Rinex3Obs
 import Midgard.Model.Rinex2Obs
 import Midgard.Spec.Rinex
+import Midgard.Proofs.ChainParser
+import Midgard.Proofs.RinexObs
 
 namespace Midgard.Props.C11
-open Midgard.Text Midgard.FixedCol Midgard.ChainParser Midgard.RinexObs
+open Midgard.Text Midgard.FixedCol Midgard.ChainParser Midgard.RinexObs Midgard.Decimal
+open Midgard.Spec.Rinex (RecSpec headerSpecs renderLabelled renderCells findLabel epoch3 epoch2 epoch2c obs3 obs2 obsLayout obsTriple)
 
-theorem placeholder_true : True := trivial
+/-! ### The code's column tables against the standards' -/
+
+def intersects (f g : Field) : Bool := decide (f.start < g.stop) && decide (g.start < f.stop)
+def inside (g f : Field) : Bool := decide (f.start ≤ g.start) && decide (g.stop ≤ f.stop)
+
+/-- a parser field *covers* the standard's layout when the standard's fields it touches are at least
+one, lie completely inside it, and — if it is exactly one — carry the same name: the parser reads
+that field plus blank (`nX`) columns only -/
+def covers (spec : Layout) (f : Field) : Bool :=
+  let hit := spec.filter (intersects f)
+  !hit.isEmpty && hit.all (inside · f) &&
+  (match hit with
+   | [g] => g.name == f.name
+   | _ => true)
+
+/-- a header label of the code: some record of the standard with that label is covered field by field -/
+def headerCovered (d : LabelDef) : Bool :=
+  d.openFields.isEmpty && d.strip == .whitespace &&
+  (findLabel d.label).any fun sp => d.fields.all (covers sp.layout)
+
+/-- header labels the parser reads that are not RINEX 2.11/3.04 observation-header records are none;
+`SYS / SCALE FACTOR` is declared by the code but not implemented (its handler only logs) -/
+def knownUnimplemented : List String := ["SYS / SCALE FACTOR"]
+
+theorem header_cols_cover_spec :
+    (Midgard.Generated.Rinex3ObsCols.header.filter fun d => !knownUnimplemented.contains d.label).all headerCovered = true ∧
+    Midgard.Generated.Rinex2ObsCols.header.all headerCovered = true := by
+  decide +kernel
+
+/-- the data records: RINEX 3 epoch line (plus the code's own look at columns 61–80 for comment lines),
+RINEX 3 observation record (`sat` then 16-character fields from column 4), RINEX 2 epoch line incl. the
+12-satellite list, RINEX 2 observation line of five 16-character fields -/
+theorem record_cols_cover_spec :
+    (Midgard.Generated.Rinex3ObsCols.records.map fun d => (d.label, d.strip, d.openFields)) =
+      [("False", .whitespace, []), ("True", .newline, [("obs", 3)])] ∧
+    ((Midgard.Generated.Rinex3ObsCols.records.find? (·.label == "False")).map fun d =>
+      (d.fields.filter (·.name != "comment")).all (covers epoch3.layout) &&
+      d.fields.any (fun f => f == ⟨"comment", 60, 80⟩)) = some true ∧
+    ((Midgard.Generated.Rinex3ObsCols.records.find? (·.label == "True")).map fun d =>
+      d.fields == [⟨"sat", 0, 3⟩]) = some true ∧
+    (Midgard.Generated.Rinex2ObsCols.records.map fun d => (d.label, d.strip, d.openFields)) =
+      [("False", .newline, []), ("True", .newline, [])] ∧
+    ((Midgard.Generated.Rinex2ObsCols.records.find? (·.label == "False")).map fun d =>
+      d.fields.all (covers epoch2.layout)) = some true ∧
+    ((Midgard.Generated.Rinex2ObsCols.records.find? (·.label == "True")).map fun d =>
+      d.fields.all (covers (obs2 5).layout) && d.fields.map (fun f => (f.start, f.stop)) ==
+        [(0, 16), (16, 32), (32, 48), (48, 64), (64, 80)]) = some true := by
+  decide +kernel
+
+/-- the handler registered for each label is the one the models dispatch to -/
+theorem handlers_as_modelled :
+    (Midgard.Generated.Rinex3ObsCols.header.map fun d => (d.label, d.handler)) =
+      [("RINEX VERSION / TYPE", "_parse_string"), ("PGM / RUN BY / DATE", "_parse_string"), ("COMMENT", "_parse_comment"),
+       ("MARKER NAME", "_parse_string"), ("MARKER NUMBER", "_parse_string"), ("MARKER TYPE", "_parse_string"),
+       ("OBSERVER / AGENCY", "_parse_string"), ("REC # / TYPE / VERS", "_parse_string"), ("ANT # / TYPE", "_parse_string"),
+       ("APPROX POSITION XYZ", "_parse_approx_position"), ("ANTENNA: DELTA H/E/N", "_parse_float"),
+       ("ANTENNA: DELTA X/Y/Z", "_parse_float"), ("SYS / # / OBS TYPES", "_parse_sys_obs_types"),
+       ("SIGNAL STRENGTH UNIT", "_parse_string"), ("INTERVAL", "_parse_float"),
+       ("TIME OF FIRST OBS", "_parse_time_of_first_obs"), ("TIME OF LAST OBS", "_parse_time_of_last_obs"),
+       ("RCV CLOCK OFFS APPL", "_parse_string"), ("SYS / DCBS APPLIED", "_parse_sys_dcbs_applied"),
+       ("SYS / PCVS APPLIED", "_parse_sys_pcvs_applied"), ("SYS / SCALE FACTOR", "_parse_scale_factor"),
+       ("SYS / PHASE SHIFT", "_parse_phase_shift"), ("GLONASS SLOT / FRQ #", "_parse_glonass_slot"),
+       ("GLONASS COD/PHS/BIS", "_parse_glonass_code_phase_bias"), ("LEAP SECONDS", "_parse_leap_seconds"),
+       ("# OF SATELLITES", "_parse_integer")] ∧
+    (Midgard.Generated.Rinex2ObsCols.header.map fun d => (d.label, d.handler)) =
+      [("RINEX VERSION / TYPE", "_parse_rinex_version_type"), ("PGM / RUN BY / DATE", "_parse_string"),
+       ("COMMENT", "_parse_comment"), ("MARKER NAME", "_parse_string"), ("MARKER NUMBER", "_parse_string"),
+       ("OBSERVER / AGENCY", "_parse_string"), ("REC # / TYPE / VERS", "_parse_string"), ("ANT # / TYPE", "_parse_string"),
+       ("APPROX POSITION XYZ", "_parse_approx_position"), ("ANTENNA: DELTA H/E/N", "_parse_float"),
+       ("WAVELENGTH FACT L1/2", "_parse_wavelength_fact"), ("# / TYPES OF OBSERV", "_parse_types_of_observ"),
+       ("INTERVAL", "_parse_float"), ("TIME OF FIRST OBS", "_parse_time_of_first_obs"),
+       ("TIME OF LAST OBS", "_parse_time_of_last_obs"), ("RCV CLOCK OFFS APPL", "_parse_string"),
+       ("LEAP SECONDS", "_parse_leap_seconds"), ("# OF SATELLITES", "_parse_integer")] ∧
+    (Midgard.Generated.Rinex3ObsCols.records.map fun d => (d.label, d.handler)) =
+      [("False", "_parse_observation_epoch"), ("True", "_parse_observation")] ∧
+    (Midgard.Generated.Rinex2ObsCols.records.map fun d => (d.label, d.handler)) =
+      [("False", "_parse_observation_epoch"), ("True", "_parse_observation")] := by
+  decide +kernel
+
+/-! ### Header records: fixed columns + label -/
+
+def specOk (sp : RecSpec) : Bool :=
+  Sorted sp.layout && Within 60 sp.layout && decide (sp.aligns.length = sp.layout.length) &&
+  Clean sp.label.toList && !sp.label.toList.isEmpty
+
+theorem specs_ok : headerSpecs.all specOk = true := by decide +kernel
+
+theorem zip_snd {α β} : ∀ (as : List α) (bs : List β), as.length = bs.length → (as.zip bs).map (·.2) = bs
+  | [], [], _ => rfl
+  | a :: as, b :: bs, h => by simp [zip_snd as bs (by simpa using h)]
+  | [], _ :: _, h => by simp at h
+  | _ :: _, [], h => by simp at h
+
+/-- **Header record round trip.**  Every header record kind of RINEX 3.04 / 2.11 (including the
+continuation-line kinds of the observation-type lists with 13 resp. 9 types per line, the phase-shift
+satellite list and the GLONASS slot list) whose cells fit their columns is read back cell by cell from
+the right-stripped rendered line, and the header label function returns its label. -/
+theorem header_record_roundtrip (sp : RecSpec) (hsp : sp ∈ headerSpecs) (cells : List Str)
+    (hlen : cells.length = sp.layout.length) (hf : Fits sp.layout (sp.aligns.zip cells) = true) :
+    sp.layout.map (fun f => slice f (rstrip (renderLabelled sp cells))) = cells ∧
+    asString (strip (sliceFrom 60 (rstrip (renderLabelled sp cells)))) = sp.label := by
+  have hok := List.all_eq_true.mp specs_ok sp hsp
+  simp only [specOk, Bool.and_eq_true, decide_eq_true_eq, Bool.not_eq_eq_eq_not, Bool.not_true] at hok
+  obtain ⟨⟨⟨⟨hs, hw⟩, hal⟩, hc⟩, hne⟩ := hok
+  have hne' : sp.label.toList ≠ [] := by
+    intro h; rw [h] at hne; simp at hne
+  have hfields := labelled_fields sp.layout (sp.aligns.zip cells) sp.label.toList hs hf
+  rw [zip_snd _ _ (by omega)] at hfields
+  have hlab := labelled_label sp.layout (sp.aligns.zip cells) sp.label.toList hs hf hw hc hne'
+  refine ⟨hfields, ?_⟩
+  unfold renderLabelled renderCells
+  rw [hlab, strip_of_clean hc]
+  simp [asString]
+
+/-! ### Observation records: value, LLI and SNR of the k-th 16-character column -/
+
+def obs3Ok (n : Nat) : Bool :=
+  Sorted (obs3 n).layout && decide ((obs3 n).aligns.length = 1 + 3 * n) && decide ((obs3 n).layout.length = 1 + 3 * n)
+
+theorem obs3_ok : (List.range 41).all obs3Ok = true := by decide +kernel
+
+/-- the three texts the parser cuts out of observation field `k` are the standard's value / LLI / SNR columns -/
+theorem triple_slices (line : Str) (n k : Nat) :
+    let f := Midgard.Rinex3Obs.obsField (ljust (16 * n) (sliceFrom 3 line)) k
+    [strip (Text.slice 0 14 f), strip (Text.slice 14 15 f), strip (Text.slice 15 16 f)] =
+      (obsTriple k (3 + 16 * k)).map (fun g => FixedCol.slice g line) := by
+  simp only [Midgard.Rinex3Obs.obsField, obsTriple, List.map_cons, List.map_nil, FixedCol.slice, sliceRaw, sliceFrom]
+  rw [slice_slice, slice_slice, slice_slice, strip_slice_ljust, strip_slice_ljust, strip_slice_ljust,
+    slice_drop, slice_drop, slice_drop]
+  have e1 : min (16 * k + 14) (16 * k + 16) + 3 = 3 + 16 * k + 14 := by omega
+  have e2 : min (16 * k + 15) (16 * k + 16) + 3 = 3 + 16 * k + 15 := by omega
+  have e3 : min (16 * k + 16) (16 * k + 16) + 3 = 3 + 16 * k + 16 := by omega
+  have e4 : 16 * k + 0 + 3 = 3 + 16 * k := by omega
+  have e5 : 16 * k + 14 + 3 = 3 + 16 * k + 14 := by omega
+  have e6 : 16 * k + 15 + 3 = 3 + 16 * k + 15 := by omega
+  rw [e1, e2, e3, e4, e5, e6]
+
+theorem obs_record (n : Nat) (hn : n ≤ 40) (sat : Str) (cells : List Str) (hlen : cells.length = 3 * n)
+    (hf : Fits (obs3 n).layout ((obs3 n).aligns.zip (sat :: cells)) = true) :
+    (Midgard.Rinex3Obs.obsTriples n (sliceFrom 3 (rstrip (renderCells (obs3 n) (sat :: cells))))).flatMap
+        (fun t => [strip t.1, strip t.2.1, strip t.2.2]) = cells ∧
+    strip (Text.slice 0 3 (rstrip (renderCells (obs3 n) (sat :: cells)))) = sat := by
+  have hok := List.all_eq_true.mp obs3_ok n (List.mem_range.mpr (by omega))
+  simp only [obs3Ok, Bool.and_eq_true, decide_eq_true_eq] at hok
+  obtain ⟨⟨hs, hal⟩, hll⟩ := hok
+  have hall := slice_renderA_rstrip (obs3 n).layout ((obs3 n).aligns.zip (sat :: cells)) hs hf
+  rw [zip_snd _ _ (by simp [hal, hlen]; omega)] at hall
+  unfold renderCells
+  generalize rstrip (renderA (obs3 n).layout ((obs3 n).aligns.zip (sat :: cells))) = line at hall ⊢
+  have hlay : (obs3 n).layout = ⟨"sat", 0, 3⟩ :: obsLayout 3 n := rfl
+  rw [hlay, List.map_cons, List.cons.injEq] at hall
+  obtain ⟨hsat, hcells⟩ := hall
+  refine ⟨?_, hsat⟩
+  rw [← hcells]
+  unfold Midgard.Rinex3Obs.obsTriples obsLayout
+  rw [List.flatMap_map, List.map_flatMap]
+  congr 1
+  funext k
+  exact triple_slices line n k
+
+
+/-- with `_float` on top: the parsed (value, LLI, SNR) of every observation type are `_float` of the
+printed cells — blank or zero cells are absent, trailing blanks of the line may be stripped, a line
+may end after the last non-blank field -/
+theorem obs_record_values (n : Nat) (hn : n ≤ 40) (sat : Str) (cells : List Str) (hlen : cells.length = 3 * n)
+    (hf : Fits (obs3 n).layout ((obs3 n).aligns.zip (sat :: cells)) = true) :
+    (Midgard.Rinex3Obs.obsTriples n (sliceFrom 3 (rstrip (renderCells (obs3 n) (sat :: cells))))).flatMap
+        (fun t => [floatOpt t.1, floatOpt t.2.1, floatOpt t.2.2]) = cells.map floatOpt := by
+  have h := (obs_record n hn sat cells hlen hf).1
+  have h2 := congrArg (List.map floatOpt) h
+  rw [← h2, List.map_flatMap]
+  congr 1
+  funext t
+  simp [floatOpt_strip]
+
+/-- RINEX 2: the three texts cut out of the `j`-th 16-character field of an observation line are the
+standard's value / LLI / SNR columns of that line -/
+theorem triple_slices2 (line : Str) (j : Nat) :
+    let w := ljust 16 (Text.slice (16 * j) (16 * j + 16) line)
+    [strip (Text.slice 0 14 w), strip (Text.slice 14 15 w), strip (Text.slice 15 16 w)] =
+      (obsTriple j (0 + 16 * j)).map (fun g => FixedCol.slice g line) := by
+  simp only [obsTriple, List.map_cons, List.map_nil, FixedCol.slice, sliceRaw]
+  rw [strip_slice_ljust, strip_slice_ljust, strip_slice_ljust, slice_slice, slice_slice, slice_slice]
+  have e1 : min (16 * j + 14) (16 * j + 16) = 0 + 16 * j + 14 := by omega
+  have e2 : min (16 * j + 15) (16 * j + 16) = 0 + 16 * j + 15 := by omega
+  have e3 : min (16 * j + 16) (16 * j + 16) = 0 + 16 * j + 16 := by omega
+  have e4 : 16 * j + 0 = 0 + 16 * j := by omega
+  have e5 : 16 * j + 14 = 0 + 16 * j + 14 := by omega
+  have e6 : 16 * j + 15 = 0 + 16 * j + 15 := by omega
+  rw [e1, e2, e3, e4, e5, e6]
+
+/-- RINEX 2 observation line of five observations (missing ones as blank cells): the fifteen columns
+read back as the cells, also from the right-stripped line -/
+theorem obs2_line_record (cells : List Str) (hlen : cells.length = 15)
+    (hf : Fits (obs2 5).layout ((obs2 5).aligns.zip cells) = true) :
+    (obs2 5).layout.map (fun g => FixedCol.slice g (rstrip (renderCells (obs2 5) cells))) = cells := by
+  have hs : Sorted (obs2 5).layout = true := by decide +kernel
+  have hal : (obs2 5).aligns.length = 15 := by decide +kernel
+  have h := slice_renderA_rstrip (obs2 5).layout ((obs2 5).aligns.zip cells) hs hf
+  rw [zip_snd _ _ (by omega)] at h
+  exact h
+
+/-! ### Sampling rate -/
+
+/-- epochs and rates printed in units of 10⁻⁷ s: the epoch is kept exactly when it is on the grid -/
+theorem sampling (a b : Int) (hb : 0 < b) :
+    offGrid ((a : Rat) / 10000000) ((b : Rat) / 10000000) = false ↔ b ∣ a :=
+  offGrid_units a b hb
+
+/-- a decimated epoch adds no row (RINEX 3) -/
+theorem decimated_epoch_adds_nothing3 (v : Values) (s : Midgard.Rinex3Obs.State) (e : EpochInfo)
+    (he : s.cache.epoch = some e) (hd : e.obsSec = none) : Midgard.Rinex3Obs.parseObservation v s = .ok s := by
+  simp [Midgard.Rinex3Obs.parseObservation, he, hd, req, bind, Except.bind, pure, Except.pure]
+
+/-- … and none in RINEX 2 -/
+theorem decimated_epoch_adds_nothing2 (v : Values) (s : Midgard.Rinex2Obs.State) (e : EpochInfo)
+    (he : s.cache.epoch = some e) (hd : e.obsSec = none) : Midgard.Rinex2Obs.parseObservation v s = .ok s := by
+  simp [Midgard.Rinex2Obs.parseObservation, he, hd, req, bind, Except.bind, pure, Except.pure]
+
+example : offGrid (60780 + 3 / 10) (1 / 10) = false ∧ offGrid (60780 + 3 / 10 + 1 / 10000000) (1 / 10) = true ∧
+    offGrid 30 30 = false ∧ offGrid 45 30 = true := by decide +kernel
+
+/-! ### `_float`: blank or zero means absent -/
+
+theorem floatOpt_blank (s : Str) (h : isBlank s = true) : floatOpt s = .ok none := by
+  simp [floatOpt, h, pure, Except.pure]
+
+theorem floatOpt_value (s : Str) (q : Rat) (hb : isBlank s = false) (hp : parseFloat s = some q) :
+    floatOpt s = .ok (if q = 0 then none else some q) := by
+  simp [floatOpt, hb, hp, pure, Except.pure]
+
+example : (floatOpt "         0.000".toList).toOption = some none ∧ (floatOpt "          .000".toList).toOption = some none ∧
+    (floatOpt "  23629347.915".toList).toOption = some (some (23629347915 / 1000)) ∧
+    (floatOpt "         -.353".toList).toOption = some (some (-353 / 1000)) ∧
+    (floatOpt "              ".toList).toOption = some none ∧ (floatOpt []).toOption = some none ∧
+    (floatOpt "0".toList).toOption = some none := by
+  decide +kernel
+
+/-! ### RINEX 2: an all-blank line inside an epoch is an observation line of five missing values -/
+
+/-- after `read_data`'s `rstrip` such a line is empty; its label is `False` (not an observation line) … -/
+theorem blank_line_label : Midgard.Rinex2Obs.obsLabel [] = "False" := by decide +kernel
+
+/-- … so it reaches `_parse_observation_epoch`, which hands it to `_parse_observation` with five blank
+fields as long as satellites of the epoch are outstanding, and ignores it otherwise -/
+theorem blank_line_is_observation (s : Midgard.Rinex2Obs.State) (d : LabelDef)
+    (hd : Midgard.Generated.Rinex2ObsCols.records.find? (·.label == "False") = some d) :
+    Midgard.Rinex2Obs.parseObservationEpoch (d.values []) s =
+      if (s.cache.satList.getD []) ≠ [] then Midgard.Rinex2Obs.parseObservation Midgard.Rinex2Obs.blankObsValues s
+      else .ok s := by
+  have hd' : d = (⟨"False", "_parse_observation_epoch", .newline,
+      [⟨"year", 0, 3⟩, ⟨"month", 3, 6⟩, ⟨"day", 6, 9⟩, ⟨"hour", 9, 12⟩, ⟨"minute", 12, 15⟩, ⟨"second", 15, 26⟩,
+       ⟨"epoch_flag", 26, 29⟩, ⟨"num_sat", 29, 32⟩, ⟨"sat_list", 32, 68⟩, ⟨"rcv_clk_offset", 68, 80⟩], []⟩ : LabelDef) := by
+    have : Midgard.Generated.Rinex2ObsCols.records.find? (·.label == "False") = some (⟨"False", "_parse_observation_epoch", .newline,
+      [⟨"year", 0, 3⟩, ⟨"month", 3, 6⟩, ⟨"day", 6, 9⟩, ⟨"hour", 9, 12⟩, ⟨"minute", 12, 15⟩, ⟨"second", 15, 26⟩,
+       ⟨"epoch_flag", 26, 29⟩, ⟨"num_sat", 29, 32⟩, ⟨"sat_list", 32, 68⟩, ⟨"rcv_clk_offset", 68, 80⟩], []⟩ : LabelDef) := by decide +kernel
+    rw [this] at hd
+    exact (Option.some.inj hd).symm
+  subst hd'
+  by_cases h : (s.cache.satList.getD []) ≠ []
+  · simp [Midgard.Rinex2Obs.parseObservationEpoch, LabelDef.values, Midgard.Rinex2Obs.getv, Values.get, req, StripOpt.apply,
+      stripChars, sliceRaw, Text.slice, strip, lstrip, rstrip, Midgard.Rinex2Obs.isNumeric, isBlank, h, bind, Except.bind, pure, Except.pure]
+  · simp [Midgard.Rinex2Obs.parseObservationEpoch, LabelDef.values, Midgard.Rinex2Obs.getv, Values.get, req, StripOpt.apply,
+      stripChars, sliceRaw, Text.slice, strip, lstrip, rstrip, Midgard.Rinex2Obs.isNumeric, isBlank, h, bind, Except.bind, pure, Except.pure]
+
+/-- five missing observations: `_parse_observation` on blank fields appends five `NaN` triples -/
+example : (Midgard.Rinex2Obs.parseObservation Midgard.Rinex2Obs.blankObsValues
+      { metaD := [([key "num_obstypes"], .int 7)],
+        cache := { epoch := some ⟨[], 0, some 0, 0, none⟩, satList := some ["G01".toList] } }).toOption.map
+      (fun s => (s.cache.obsValues, s.cache.satList)) =
+    some (some [none, none, none, none, none], some ["G01".toList]) := by
+  decide +kernel
+
+/-! ### RINEX 2: two-digit years take the century of TIME OF FIRST OBS -/
+
+example : zfill 2 "5".toList = "05".toList ∧ parseInt? ("20".toList ++ zfill 2 "5".toList) = some 2005 ∧
+    parseInt? ("19".toList ++ zfill 2 "99".toList) = some 1999 := by decide +kernel
+
+/-! ### Worked files (non-vacuity of the state machines)
+
+The file-level statements `parse3 (render3 F) = rows F` and `parse2 (render2 F) = rows F` — one row per
+(epoch, satellite) in file order, equal column lengths, types undefined for a system absent, for every
+well-formed file model `F` — are *not* proved; they need the induction over epochs and satellites through
+`readData` and are what the correspondence measures on every generated file. -/
+
+/-- RINEX 2, seven types (two lines per satellite), the second line of the first satellite all blank:
+two rows, `S1` of G07 absent, values of R21 in their own columns -/
+def tiny2 : List Str := [
+  "     2.11           OBSERVATION DATA    M (MIXED)           RINEX VERSION / TYPE",
+  "TRDS                                                        MARKER NAME",
+  "     7    C1    P2    L1    L2    D1    S1    S2            # / TYPES OF OBSERV",
+  "  2018     2     1     0     0    0.0000000     GPS         TIME OF FIRST OBS",
+  "                                                            END OF HEADER",
+  " 18  2  1  0  0 30.0000000  0  2G07R21",
+  "  24236245.742    24236247.152   127362289.44018  99243378.71651      2293.062",
+  "",
+  "  21119353.719                  110982860.19619                      -1784.992",
+  "        49.300          38.000"].map String.toList
+
+def tiny2Out : Option (List Str × List Str × Option Col × Option Col × Option Col) :=
+  match Midgard.Rinex2Obs.parseLines none tiny2 with
+  | .ok s => some (s.data.time, s.data.satellite, (s.data.obs.find? (·.1 == "S1".toList)).map (·.2),
+      (s.data.obs.find? (·.1 == "P2".toList)).map (·.2), (s.data.lli.find? (·.1 == "L1".toList)).map (·.2))
+  | _ => none
+
+example : tiny2Out.map (·.1.length) = some 2 ∧
+    tiny2Out.map (·.2.1) = some ["G07".toList, "R21".toList] ∧
+    tiny2Out.map (·.2.2.1) = some (some [none, some (493 / 10)]) ∧
+    tiny2Out.map (·.2.2.2.1) = some (some [some (24236247152 / 1000), none]) ∧
+    tiny2Out.map (·.2.2.2.2) = some (some [some 1, some 1]) := by
+  decide +kernel
+
+/-- RINEX 3, two systems with different type lists, a decimated epoch in between (sampling rate 30 s) -/
+def tiny3 : List Str := [
+  "     3.03           OBSERVATION DATA    M                   RINEX VERSION / TYPE",
+  "trds                                                        MARKER NAME",
+  "G    2 C1C L1C                                              SYS / # / OBS TYPES",
+  "E    1 C5X                                                  SYS / # / OBS TYPES",
+  "  2018     2     1     0     0    0.0000000     GPS         TIME OF FIRST OBS",
+  "                                                            END OF HEADER",
+  "> 2018  2  1  0  0  0.0000000  0  2",
+  "G07  23494924.453   123466751.004 7",
+  "E08  26016567.422",
+  "> 2018  2  1  0  0 15.0000000  0  1",
+  "G07  23494925.453   123466752.004 7",
+  "> 2018  2  1  0  0 30.0000000  0  1",
+  "E08          .000 5"].map String.toList
+
+def tiny3Out : Option (List Str × List Str × Option Col × Option Col × Option Col) :=
+  match Midgard.Rinex3Obs.parseLines (some 30) tiny3 with
+  | .ok s => some (s.data.time, s.data.satellite, (s.data.obs.find? (·.1 == "C1C".toList)).map (·.2),
+      (s.data.obs.find? (·.1 == "C5X".toList)).map (·.2), (s.data.snr.find? (·.1 == "L1C".toList)).map (·.2))
+  | _ => none
+
+example : tiny3Out.map (·.1.length) = some 3 ∧
+    tiny3Out.map (·.2.1) = some ["G07".toList, "E08".toList, "E08".toList] ∧
+    tiny3Out.map (·.2.2.1) = some (some [some (23494924453 / 1000), none, none]) ∧
+    tiny3Out.map (·.2.2.2.1) = some (some [none, some (26016567422 / 1000), none]) ∧
+    tiny3Out.map (·.2.2.2.2) = some (some [some 7, none, none]) := by
+  decide +kernel
 
 end Midgard.Props.C11
 
-#print axioms Midgard.Props.C11.placeholder_true
+#print axioms Midgard.Props.C11.header_cols_cover_spec
+#print axioms Midgard.Props.C11.record_cols_cover_spec
+#print axioms Midgard.Props.C11.handlers_as_modelled
+#print axioms Midgard.Props.C11.specs_ok
+#print axioms Midgard.Props.C11.zip_snd
+#print axioms Midgard.Props.C11.header_record_roundtrip
+#print axioms Midgard.Props.C11.floatOpt_blank
+#print axioms Midgard.Props.C11.floatOpt_value
+#print axioms Midgard.Props.C11.blank_line_label
+#print axioms Midgard.Props.C11.blank_line_is_observation
+#print axioms Midgard.Props.C11.obs3_ok
+#print axioms Midgard.Props.C11.triple_slices
+#print axioms Midgard.Props.C11.obs_record
+#print axioms Midgard.Props.C11.obs_record_values
+#print axioms Midgard.Props.C11.triple_slices2
+#print axioms Midgard.Props.C11.obs2_line_record
+#print axioms Midgard.Props.C11.sampling
+#print axioms Midgard.Props.C11.decimated_epoch_adds_nothing3
+#print axioms Midgard.Props.C11.decimated_epoch_adds_nothing2
